@@ -363,13 +363,20 @@ def tolerance(repo, rep):
                             inline_nearest = True
     if cid is None or cdist is None:
         raise AnalysisError("sel_nearest: (id, distance) = coords.nearest(...) not found")
-    app = [i for i, s in enumerate(loop.body) if isinstance(s, ast.Expr) and isinstance(s.value, ast.Call) and isinstance(s.value.func, ast.Attribute)
-           and s.value.func.attr == "append" and [unparse(a_) for a_ in s.value.args] == [cid]]
-    tol = [i for i, s in enumerate(loop.body) if isinstance(s, ast.If) and unparse(s.test).replace(" ", "") in (f"{cdist}>tolerance", f"tolerance<{cdist}")]   # E0 stores the second form
-    if not tol or not app or tol[0] > app[0]:
+    # (position of) the statement of the loop body that holds the append / the tolerance test, at any nesting depth (E0 stores
+    # `if c: continue; REST` as `if not c: REST`, so the append may sit inside a branch)
+    def top_index(pred):
+        return [i for i, s in enumerate(loop.body) if any(pred(x) for x in ast.walk(s))]
+    is_app = lambda x: isinstance(x, ast.Expr) and isinstance(x.value, ast.Call) and isinstance(x.value.func, ast.Attribute) \
+        and x.value.func.attr == "append" and [unparse(a_) for a_ in x.value.args] == [cid]
+    is_tol = lambda x: isinstance(x, ast.If) and unparse(x.test).replace(" ", "") in (f"{cdist}>tolerance", f"tolerance<{cdist}")   # E0 stores the second form
+    app, tol = top_index(is_app), top_index(is_tol)
+    tol_nodes = [x for s in loop.body for x in ast.walk(s) if is_tol(x)]
+    app_nodes = [x for s in loop.body for x in ast.walk(s) if is_app(x)]
+    if not tol or not app or tol_nodes[0].lineno > app_nodes[0].lineno:
         rep.fail("R-C14-5", fi.file, loop.lineno, fi.qualname, "tolerance test", "a nearest station farther than the tolerance must raise (or be skipped) BEFORE it is selected")
     else:
-        s = loop.body[tol[0]]
+        s = tol_nodes[0]
         inner = unparse(s)
         if "raise" in inner and "continue" in inner:
             rep.ok("R-C14-5", f"{fi.file}:{s.lineno} sel_nearest", "if closest_dist > tolerance: raise | continue", "before the station id is appended")
